@@ -38,6 +38,8 @@ import (
 
 var defaultW int // the package's own initial validateRoutineCount (runtime.NumCPU())
 
+func setWorkersRaw(n int) int { return evm.SetVerifValidateRoutineCount(n) }
+
 func setWorkers(w int) {
 	if w == 0 {
 		w = defaultW
@@ -69,6 +71,29 @@ type driver struct {
 	states   *core.Counter // distinct (chain, height, lifetime position, workers) application states driven
 	restarts int64
 	samples  *core.Sampler
+}
+
+// parN runs f(i) for i in [0,n) on at most width goroutines.
+func parN(n, width int, f func(i int)) {
+	if width < 1 {
+		width = 1
+	}
+	var wg sync.WaitGroup
+	var next int64 = -1
+	for k := 0; k < width && k < n; k++ {
+		wg.Add(1)
+		go func() {
+			defer wg.Done()
+			for {
+				i := int(atomic.AddInt64(&next, 1))
+				if i >= n {
+					return
+				}
+				f(i)
+			}
+		}()
+	}
+	wg.Wait()
 }
 
 func popcount(x int) int {
@@ -361,6 +386,9 @@ func (d *driver) judge(ref *refChain, res map[cfg]*runResult, x *runResult, only
 		}
 		if x.After != nil && y0 != nil && y0.After != nil {
 			for _, comp := range components {
+				if _, ok := x.After[comp]; !ok {
+					continue
+				}
 				atomic.AddInt64(&d.evals, 1)
 				if x.After[comp] == y0.After[comp] {
 					d.classes.Add("lifetime/after-restart/" + comp + "/equal")
@@ -490,12 +518,16 @@ func main() {
 		raceWorker(os.Args[2])
 		return
 	}
+	if len(os.Args) >= 4 && os.Args[1] == "worker" {
+		workerMain(os.Args[2], os.Args[3])
+		return
+	}
 	run := core.Start("C05", "model_checking", "XSTATE")
 	evmkit.Silence()
-	// every Open of the application allocates ≈ 70 MB of short-lived buffers;
-	// collect by memory limit instead of by growth ratio
-	debug.SetGCPercent(-1)
-	debug.SetMemoryLimit(2500 << 20)
+	// every open application holds ≈ 100 MB (two 32 MB LevelDB write buffers and
+	// what the journal replay allocates); the width of the worker pool bounds the
+	// resident set (page faults on fresh memory are what an Open costs)
+	debug.SetMemoryLimit(3 << 30)
 	defaultW = evm.SetVerifValidateRoutineCount(1)
 	d := &driver{run: run, work: run.WorkDir(), refs: map[string]*refChain{}, results: map[string]map[cfg]*runResult{},
 		classes: core.NewCounter(), records: core.NewCounter(), states: core.NewCounter(), samples: core.NewSampler(6, run.Seed)}
@@ -534,33 +566,93 @@ func main() {
 		chains = strings.Split(v, ",")
 	}
 
-	// phase 0: the reference replicas build the chains (one worker, one lifetime)
-	setWorkers(1)
-	core.Par(len(chains), func(i int) { d.buildReference(chains[i]) })
-	type job struct {
-		chain string
-		c     cfg
+	procs := 12
+	if v := os.Getenv("C05_PROCS"); v != "" {
+		fmt.Sscanf(v, "%d", &procs)
 	}
-	byW := map[int][]job{}
-	total := 0
+	if g := runtime.GOMAXPROCS(0); procs > g {
+		procs = g
+	}
+	if procs < 1 {
+		procs = 1
+	}
+	defs := map[string]*chainDef{}
+	for _, name := range chains {
+		cd, err := buildChain(name)
+		if err != nil {
+			core.Fatal("%v", err)
+		}
+		defs[name] = cd
+	}
+	// batches of roughly equal cost (cost of a run = number of application opens)
+	batchUp := func(jobs []wireJob, target int) [][]wireJob {
+		var out [][]wireJob
+		var cur []wireJob
+		cost := 0
+		for _, j := range jobs {
+			c := 2 + popcount(j.Cfg.P)
+			if len(cur) > 0 && (cost+c > target || cur[0].Chain != j.Chain) {
+				out = append(out, cur)
+				cur, cost = nil, 0
+			}
+			cur = append(cur, j)
+			cost += c
+		}
+		if len(cur) > 0 {
+			out = append(out, cur)
+		}
+		return out
+	}
+	runBatches := func(batches [][]wireJob) []spawned {
+		res := make([][]spawned, len(batches))
+		parN(len(batches), procs, func(i int) { res[i] = d.spawn(batches[i]) })
+		var all []spawned
+		for _, r := range res {
+			all = append(all, r...)
+		}
+		return all
+	}
+
+	// round 1: the reference replicas build the chains (one worker, one lifetime)
+	var refJobs []wireJob
+	for _, name := range chains {
+		refJobs = append(refJobs, wireJob{Chain: name, Cfg: cfg{P: 0, W: 1}})
+	}
+	for _, sp := range runBatches(batchUp(refJobs, 6)) {
+		name := sp.rr.Chain
+		d.results[name] = map[cfg]*runResult{sp.rr.Cfg: sp.rr}
+		if sp.ref == nil {
+			sp.ref = &wireRef{}
+		}
+		d.refs[name] = fromWireRef(defs[name], sp.ref)
+		d.refs[name].res = sp.rr
+	}
+	// round 2: every other configuration, fed the reference's blocks
+	var jobs []wireJob
 	for _, name := range chains {
 		ref := d.refs[name]
 		if ref.res.Fail != nil {
 			continue
 		}
-		for _, c := range configs(len(ref.def.Blocks), ws) {
-			byW[c.W] = append(byW[c.W], job{name, c})
-			total++
+		n := len(ref.def.Blocks)
+		cs := configs(n, ws)
+		if strings.HasPrefix(name, "ord-") {
+			// the 120 ordering chains: the full partition × worker grid, without the extra replicas
+			cs = cs[:0]
+			for _, c := range configs(n, ws) {
+				if c.W != 0 && c.Rep == 0 {
+					cs = append(cs, c)
+				}
+			}
+		}
+		wr := toWireRef(ref)
+		for _, c := range cs {
+			jobs = append(jobs, wireJob{Chain: name, Cfg: c, Ref: wr})
 		}
 	}
-	// one phase per worker count: validateRoutineCount is a package variable, it
-	// only changes while no application is executing
-	for _, w := range append(append([]int{}, ws...), 0) {
-		jobs := byW[w]
-		setWorkers(w)
-		core.Par(len(jobs), func(i int) { d.runOne(jobs[i].chain, jobs[i].c) })
+	for _, sp := range runBatches(batchUp(jobs, 36)) {
+		d.results[sp.rr.Chain][sp.rr.Cfg] = sp.rr
 	}
-	setWorkers(1)
 
 	// judge, in a fixed order (fewest restarts first, so that the recorded case of a class is a minimal one)
 	runs := 0
